@@ -18,10 +18,11 @@ LEVEL_TEXT = ("Generated valid schema models, all single and sampled double rule
               "(R8) decides validity of every model; a request against every invalid schema must return exactly the validation errors without executing a resolver.")
 LEVEL_NOTE = "trusted: R8 (vf/ref/schema_rules.py) for the rule classes the property lists; mutation classes outside that list are not generated, so R8 never rules on them"
 TECHNIQUE = "runtime monitoring: differential oracle (type-system rule model) over rule-violating schema mutations; boundary exception monitor; request-on-invalid-schema monitor"
-RULE = ("models from G-schema; 34 named mutators (30 rule-violating, 4 rule-preserving near-misses), one or two per case; each model realised as SDL -> build_schema (assume_valid_sdl on/off) "
-        "and as constructor calls; grammar-random and character-mutated SDL only for the never-raises clause. Non-trivial: the model is a mutant; distinct = (model SDL, realisation).")
+RULE = ("models from G-schema; 31 named mutators (27 rule-violating incl. deprecated required arguments / input fields, implementation-only deprecation and duplicate interfaces / union members, 4 rule-preserving near-misses), one or two per case; each model realised as SDL -> build_schema (assume_valid_sdl on/off) "
+        "and as constructor calls with literal defaults and, unless a default is invalid, with external-value defaults; valid models with one ill-typed external-value default; grammar-random and character-mutated SDL only for the never-raises clause. Non-trivial: the model is a mutant; distinct = (model SDL, realisation).")
 ASSUMPTIONS = ["a schema 'can be constructed' when build_schema / the GraphQLSchema constructor returns; construction failures are counted, not judged"]
-REQUIRED_COUNTERS = ["verdicts_compared_with_R8", "invalid_models_checked", "valid_models_checked", "requests_against_invalid_schemas", "random_sdl_schemas_validated"]
+REQUIRED_COUNTERS = ["verdicts_compared_with_R8", "invalid_models_checked", "valid_models_checked", "requests_against_invalid_schemas", "random_sdl_schemas_validated",
+                     "schemas_with_value_style_defaults", "ill_typed_value_defaults_checked"]
 
 
 # ------------- mutators on models: (name, function(rng, M) -> bool applied) -------------
@@ -389,7 +390,62 @@ def m_oneof_default(r, M):
     return True
 
 
-MUTATORS = [m_no_query, m_root_not_object, m_same_root, m_iface_missing_field, m_iface_field_type, m_iface_covariant_ok, m_iface_missing_arg,
+def _input_values(M):
+    out = []
+    for n, t in M['types'].items():
+        if t['kind'] in ('object', 'interface'):
+            for fn, f in t['fields'].items():
+                out.extend(f['args'].values())
+        elif t['kind'] == 'input':
+            out.extend(t['fields'].values())
+    for d in M['directives'].values():
+        out.extend(d['args'].values())
+    return out
+
+
+def m_deprecated_required(r, M):
+    vals = _input_values(M)
+    if not vals:
+        return False
+    a = r.choice(vals)
+    a['deprecation'] = r.choice(['', 'gone', 'No longer supported'])
+    if r.random() < 0.7:
+        if a['type'][0] != 'nn':
+            a['type'] = ('nn', a['type'])
+        a['default'] = None
+    return True
+
+
+def m_impl_deprecated(r, M):
+    p = _impl_pairs(M)
+    if not p:
+        return False
+    n, i, fn = r.choice(p)
+    M['types'][n]['fields'][fn]['deprecation'] = 'old'
+    if r.random() < 0.3:
+        M['types'][i]['fields'][fn]['deprecation'] = 'old too'
+    return True
+
+
+def m_iface_dup(r, M):
+    p = [n for n, t in M['types'].items() if t['kind'] in ('object', 'interface') and t['interfaces']]
+    if not p:
+        return False
+    t = M['types'][r.choice(p)]
+    t['interfaces'].append(r.choice(t['interfaces']))
+    return True
+
+
+def m_union_dup(r, M):
+    p = [n for n, t in M['types'].items() if t['kind'] == 'union' and t['members']]
+    if not p:
+        return False
+    t = M['types'][r.choice(p)]
+    t['members'].append(r.choice(t['members']))
+    return True
+
+
+MUTATORS = [m_deprecated_required, m_impl_deprecated, m_iface_dup, m_union_dup, m_no_query, m_root_not_object, m_same_root, m_iface_missing_field, m_iface_field_type, m_iface_covariant_ok, m_iface_missing_arg,
             m_iface_arg_type, m_iface_extra_required_arg, m_iface_extra_optional_arg_ok, m_iface_self, m_iface_missing_transitive,
             m_implements_non_interface, m_union_empty, m_union_non_object, m_empty_type, m_output_in_input, m_input_in_output, m_reserved_name,
             m_bad_default, m_null_default_for_non_null, m_input_cycle, m_input_cycle_list_ok, m_default_cycle, m_default_no_cycle_ok, m_oneof_nonnull,
@@ -468,11 +524,20 @@ def model_case(ctx, seed, k):
         return
     sdl = render_sdl(M)
     case = {"kind": "model", "seed": seed, "mutators": names, "sdl": sdl, "R8": expected}
-    for how in ('sdl', 'sdl:assume_valid_sdl', 'programmatic'):
+    hows = ['sdl', 'sdl:assume_valid_sdl', 'programmatic']
+    if 'default:invalid' not in expected:
+        # defaults given as external Python values (GraphQLDefaultInput(value=...)) take a different path through the
+        # validator (validate_input_value on values, value-based default cycle detection).  An ill-kinded literal such as
+        # X for String has no external-value counterpart, so models with an invalid default stay on the literal paths.
+        hows.append('programmatic:value')
+    for how in hows:
         ctx.case()
         try:
-            if how == 'programmatic':
-                S = build_programmatic(M, 'literal')   # external values cannot express an ill-kinded literal such as X for String
+            if how == 'programmatic:value':
+                S = build_programmatic(M, 'value')
+                ctx.count("schemas_with_value_style_defaults")
+            elif how == 'programmatic':
+                S = build_programmatic(M, 'literal')
             else:
                 S = build_schema(sdl, assume_valid_sdl=how.endswith('assume_valid_sdl'))
         except Exception as e:  # noqa: BLE001
@@ -484,6 +549,69 @@ def model_case(ctx, seed, k):
             ctx.nontrivial((sdl, how))
     if k % 499 == 0:
         ctx.sample({"mutators": names, "R8": expected, "sdl": sdl[:500]})
+
+
+def ill_typed_value(rng, M, ref):
+    """An external Python value that certainly does not conform to the input type `ref`, or None if there is none."""
+    if ref[0] == 'nn':
+        return ('v', None) if rng.random() < 0.5 else ill_typed_value(rng, M, ref[1])
+    if ref[0] == 'l':
+        inner = ill_typed_value(rng, M, ref[1])
+        if inner is None:
+            return None
+        # a non-list value is coerced to a one-item list, except null, which is a valid value for the nullable list itself
+        return ('v', [inner[1]]) if (inner[1] is None or isinstance(inner[1], list) or rng.random() < 0.5) else inner
+    name = ref[1]
+    if name == 'Int':
+        return ('v', rng.choice(['1', 1.5, True, 2 ** 31, {}]))
+    if name == 'Float':
+        return ('v', rng.choice(['1.0', True, {}, float('inf')]))
+    if name == 'String':
+        return ('v', rng.choice([1, True, {}, 1.5]))
+    if name == 'Boolean':
+        return ('v', rng.choice(['true', 0, 1, {}]))
+    if name == 'ID':
+        return ('v', rng.choice([True, 1.5, {}]))
+    t = M['types'].get(name)
+    if t is None:
+        return None
+    if t['kind'] == 'enum':
+        return ('v', rng.choice(['__NOT_A_VALUE', 1, True]))
+    if t['kind'] == 'input':
+        return ('v', rng.choice([1, 'x', {'__no_such_field': 1}]))
+    return None   # custom scalars accept anything
+
+
+def value_default_case(ctx, seed):
+    """A valid schema whose only defect is an ill-typed default given as an external value."""
+    rng = random.Random(seed)
+    M = SchemaGen(rng, adversarial=0.0).model()
+    try:
+        if R8.check(M):
+            return
+    except Exception:  # noqa: BLE001
+        return
+    vals = [a for a in _input_values(M) if not (a['type'][0] == 'nn' and a.get('deprecation') is not None)]
+    rng.shuffle(vals)
+    for a in vals:
+        v = ill_typed_value(rng, M, a['type'])
+        if v is not None:
+            a['pyvalue'] = v[1]
+            break
+    else:
+        return
+    how = 'programmatic:ill-typed-value-default'
+    case = {"kind": "value-default", "seed": seed}
+    try:
+        S = build_programmatic(M, 'value')
+    except Exception as e:  # noqa: BLE001
+        ctx.count("not_constructible:programmatic")
+        ctx.label("construction_exceptions", type(e).__name__)
+        return
+    ctx.case()
+    ctx.count("ill_typed_value_defaults_checked")
+    judge(ctx, S, ['default:invalid'], how, {**case, "how": how, "mutators": [repr(a['pyvalue'])[:40], repr(a['type'])]})
+    ctx.nontrivial((seed, how))
 
 
 def random_sdl_case(ctx, rng, k):
@@ -506,6 +634,8 @@ def run_shard(ctx):
     base = ctx.seed * 9_000_011 + ctx.shard * 1_000_081
     for k in range(ctx.n(5000, 90000)):
         model_case(ctx, base + k, k)
+    for k in range(ctx.n(2500, 40000)):
+        value_default_case(ctx, base + 7_000_000 + k)
     rng = ctx.rng
     for k in range(ctx.n(12000, 200000)):
         random_sdl_case(ctx, rng, k)
@@ -514,6 +644,8 @@ def run_shard(ctx):
 def replay(ctx, case):
     if case["kind"] == "model":
         model_case(ctx, case["seed"], 1)
+    elif case["kind"] == "value-default":
+        value_default_case(ctx, case["seed"])
     else:
         try:
             S = build_schema(case["sdl"], assume_valid_sdl=case["assume_valid_sdl"])
